@@ -60,6 +60,26 @@ def gen_sumproducts(rng, n, sum_op, prod_op, carrier, max_ops):
     return out
 
 
+def gen_sameop(rng, n):
+    """reductions whose op equals the binary op underneath (sum of sums, product of products, ...): some operand
+    does not mention a reduced variable, so its multiplicity matters"""
+    from lang.prog import binary, leaf, num, reduce_
+    out = []
+    for _ in range(n):
+        op, car = rng.choice([("add", "real"), ("mul", "pos"), ("logaddexp", "log"), ("max", "real"), ("min", "real")])
+        k = rng.randint(2, 3)
+        ops_ = []
+        for i in range(k):
+            vs = [v for v in VARS if rng.random() < 0.5]
+            ops_.append(leaf("g%d" % i, tuple(vs), (), car))
+        e = ops_[0]
+        for o in ops_[1:]:
+            e = binary(op, e, o)
+        red = tuple(v for v in VARS if rng.random() < 0.6) or (VARS[0],)
+        out.append((op, car, reduce_(op, e, red)))
+    return out
+
+
 def einsum_instances(tier):
     """funsor.einsum.einsum(...) for all equations with <= 3 (|4) operands x 3 (|4) symbols (operand = subset of symbols)"""
     syms = "abc" if tier == "quick" else "abcd"
@@ -139,6 +159,9 @@ def instances(tier, seed):
                 out.append(("prog", s, sr, p, False, n % 15 == 0))
             if n % 5 == 0:
                 out.append(("prog", "optimizer", sr, p, True, False))     # relational: optimized == naive eager
+    for op, car, p in gen_sameop(rng, 40 if tier == "quick" else 400):
+        for sch in (SCHEDS if tier != "quick" else ["normalize", "lazy_normalize_eager"]):
+            out.append(("prog", sch, (op, op, car), p, False, False))
     for _, eq in einsum_instances(tier):
         for be in ("numpy", "funsor.einsum.numpy_log", "funsor.einsum.numpy_map"):
             out.append(("einsum", eq, be))
